@@ -16,15 +16,18 @@
                             [let paused = self.paused.load(Relaxed);]                    = CLoad
                             [if paused { waiter.await }]                                 = CDecide, then CWake
                             (no loop: [paused] is read exactly once per call)
-    src/client.rs [Client::handle], "Check if the pool is paused and wait until it's resumed"
-                            (about line 1063-1080): the client task calls [pool.wait_paused().await]
-                            once before each checkout, then [pool = self.get_pool()] and
-                            [pool.get(..)]; everything after the call is "past the gate" ([Passed])
-                            until the transaction ends and the server is checked in (CDone), after
-                            which the next client message starts over at CReg.
-                            NOT modelled: RELOAD replacing the pool object a session holds (the
-                            session resolves its pool at connect and re-resolves it only AFTER
-                            [wait_paused]) — see finding C16-RELOAD-WHILE-PAUSED in props/c16.py.
+    src/client.rs [Client::handle], "Check if the pool is paused and wait until it's resumed":
+                            before each checkout the client task does
+                            [pool = self.get_pool().await?; pool.wait_paused().await;
+                             pool = self.get_pool().await?; query_router.update_pool_settings(..);
+                             self.transaction_mode = ..] and then [pool.get(..)]: one gate passage per
+                            checkout, on the pool object that is REGISTERED at that moment;
+                            everything after the call is "past the gate" ([Passed]) until the
+                            transaction ends and the server is checked in (CDone; a session-mode
+                            client keeps its server and never passes the gate again), after which
+                            the next client message starts over at CReg.
+                            RELOAD replacing / removing / re-adding the pool object is modelled in
+                            ReloadModel.v (the lookup before the wait is its [resolve = true]).
     src/admin.rs:819-941  [PAUSE] / [RESUME] call [pool.pause()] / [pool.resume()] on every pool of
                             [get_all_pools()] in a loop, [PAUSE db,user] / [RESUME db,user] on the
                             one pool [get_pool(db,user)].  Each pool owns its own [paused] flag and
